@@ -24,6 +24,8 @@ def concerns(ev, verdict):
             s.add("C08")
         if p.startswith("lexer-token") or p.startswith("parse-"):
             s.add("C04")
+        if p.startswith("date-"):
+            s.add("C19")
         if p.startswith("denote-") or p.startswith("json-"):
             s.add("C11")
         if p in ("registry-visibility", "valid-registration-rejected", "invalid-name-accepted"):
@@ -456,6 +458,10 @@ def main(argv):
         ids = sorted(evs)
         for i in ids:
             e = evs[i]
+            if e.get("ev") == "Date":
+                if verdicts.get(i, "ok") == "ok":
+                    nontrivial.add(json.dumps([e.get(k) for k in ("fn", "day", "msod", "pic", "tz", "s")]))
+                continue
             if e.get("ev") == "Denote":
                 if verdicts.get(i, "ok") == "ok":
                     nontrivial.add(json.dumps(e["bytes"]))
@@ -471,6 +477,9 @@ def main(argv):
                 nontrivial.add(cps_to_str(e["src"]) + "|" + json.dumps(e["inp"], sort_keys=True))
         for i in rnd.sample(ids, min(6, len(ids))):
             e = evs[i]
+            if e.get("ev") == "Date":
+                samples.append({"call": cps_to_str(e.get("src", [])), "observed": ({"text": cps_to_str(e["out"]["s"])} if "s" in e.get("out", {}) else e.get("out")), "spec_verdict": verdicts.get(i, "ok")})
+                continue
             if "bytes" in e:
                 samples.append({"input_bytes_as_text": src_of(e), "tokens": len(e.get("toks", [])), "observed": e["out"], "spec_verdict": verdicts.get(i, "ok")})
                 continue
